@@ -396,8 +396,8 @@ def tasks(tier):
                 if q and L == 0 and not lens:
                     continue
                 ts.append(task(PROP, M_, "AliSliceH", policy="ali", N=2, T=4 if q else 5, lobe=L, window_type=wt, valid_only=valid, lens=lens, nvalidate=1))
-        if q and valid:   # lobes wider than the number of segments in the whole batch (thorough has lobe 2 and 3 throughout)
-            ts.append(task(PROP, M_, "AliSliceH", policy="ali", N=2, T=3, lobe=2 if wt == "symmetric" else 3, window_type=wt, valid_only=True, lens=(wt != "causal"), nvalidate=1))
+        if q:   # lobes wider than the number of segments in the whole batch (thorough has lobe 2 and 3 throughout)
+            ts.append(task(PROP, M_, "AliSliceH", policy="ali", N=2, T=3, lobe=(2 if wt == "symmetric" else 3) if valid else 3, window_type=wt, valid_only=valid, lens=(wt != "causal"), nvalidate=1))
         for L in (0, 1):
             for lens, olens in itertools.product((True, False), repeat=2):
                 if q and L == 0 and (lens != olens):
